@@ -58,7 +58,7 @@ def make_arg(torch, x, ik):
     """Returns (arg, watch) where watch is a list of tensors whose content must not change."""
     if x is None:
         return None, []
-    if ik == "plain":
+    if ik in ("plain", "nograd"):
         a = x.clone()
         return a, [a]
     if ik == "view":
@@ -175,7 +175,7 @@ class SessionDriver:
             w1 = []
             f = m.sample if op == "sample" else m.sample_and_log_prob
             # for the sampling operations the input kind also selects the number of draws per row
-            n = 1 if ik in ("view", "grad") else 3
+            n = 1 if ik in ("view", "grad") else 3 if ik != "nograd" else 2
             fn = lambda: f(n, context=c) if c is not None else f(n)
         watch = w1 + w2
         s0 = snap(watch)
@@ -184,7 +184,11 @@ class SessionDriver:
         raised = "none"
         out = None
         try:
-            out = tensors_of(fn())
+            if ik == "nograd":
+                with torch.no_grad():
+                    out = tensors_of(fn())
+            else:
+                out = tensors_of(fn())
         except Exception as ex:  # noqa
             raised = type(ex).__name__
             self.exc = repr(ex)[:200]
